@@ -184,6 +184,9 @@ class BinStub:
         self.log = log if log is not None else []
         self.hit_bin_idx = -1
 
+    def clone(self):
+        return BinStub(self.n)
+
     def finalize(self, base):
         self.base = base
         return self.n
@@ -657,6 +660,66 @@ def _mk_cp(desc, name="cp"):
     for k in desc[2]:
         cp.add_illegal_bin_model(V[k]())
     return cp
+
+
+@contract("coverage_options.clone", ["C12", "C13"],
+          ["vsc.model.coverage_options_model.CoverageOptionsModel.clone", "vsc.model.coverpoint_model.CoverpointModel.clone",
+           "vsc.model.coverpoint_cross_model.CoverpointCrossModel.clone", "vsc.model.covergroup_model.CovergroupModel.clone"],
+          lambda tier, seed: [(k,) for k in ("options", "coverpoint", "cross", "covergroup")],
+          note="the type model is a clone of the first instance: every option that enters the coverage arithmetic (weight, "
+               "at_least, goal, auto_bin_max, comment) must reach the clone with its value - symbolic integers - and the clone must "
+               "own its options object")
+def c_options_clone(c, kind):
+    from vsc.model.coverage_options_model import CoverageOptionsModel
+    from vsc.model.coverpoint_model import CoverpointModel
+    from vsc.model.coverpoint_cross_model import CoverpointCrossModel
+    from vsc.model.covergroup_model import CovergroupModel
+
+    def mk(tag):
+        o = CoverageOptionsModel()
+        o.weight, o.goal, o.at_least, o.auto_bin_max = (c.fresh_int(tag + "w"), c.fresh_int(tag + "g"), c.fresh_int(tag + "al"),
+                                                        c.fresh_int(tag + "abm"))
+        o.comment = "note-" + tag
+        return o
+
+    def same(tag, a, b):
+        c.prove("C12: %s: the clone owns its options object" % tag, a is not b)
+        c.prove("C12: %s: weight, at_least, goal, auto_bin_max and comment reach the clone unchanged" % tag,
+                And(lift(b.weight == a.weight), lift(b.at_least == a.at_least), lift(b.goal == a.goal),
+                    lift(b.auto_bin_max == a.auto_bin_max)))
+        c.prove("C12: %s: comment copied" % tag, b.comment == a.comment)
+    if kind == "options":
+        o = mk("o")
+        same("options", o, o.clone())
+        return
+    cp1 = CoverpointModel(None, "cp1", mk("p1"))
+    cp1.add_bin_model(BinStub(2))
+    cp2 = CoverpointModel(None, "cp2", mk("p2"))
+    cp2.add_bin_model(BinStub(3))
+    if kind == "coverpoint":
+        same("coverpoint", cp1.options, cp1.clone().options)
+        return
+    cr = CoverpointCrossModel("cr", mk("x"))
+    cr.add_coverpoint(cp1)
+    cr.add_coverpoint(cp2)
+    if kind == "cross":
+        m = {cp1: cp1.clone(), cp2: cp2.clone()}
+        cl = cr.clone(m)
+        same("cross", cr.options, cl.options)
+        c.prove("C12: the cloned cross refers to the cloned coverpoints, in order", cl.coverpoint_model_l == [m[cp1], m[cp2]])
+        return
+    cg = CovergroupModel("cg")
+    cg.add_coverpoint(cp1)
+    cg.add_coverpoint(cp2)
+    cg.add_coverpoint(cr)
+    cl = cg.clone()
+    c.prove("C12: the type clone has one coverpoint / cross per coverpoint / cross of the instance",
+            len(cl.coverpoint_l) == 2 and len(cl.cross_l) == 1)
+    same("covergroup/cp1", cp1.options, cl.coverpoint_l[0].options)
+    same("covergroup/cp2", cp2.options, cl.coverpoint_l[1].options)
+    same("covergroup/cross", cr.options, cl.cross_l[0].options)
+    c.prove("C12: the cloned cross samples the clone's coverpoints, not the instance's",
+            cl.cross_l[0].coverpoint_model_l == cl.coverpoint_l)
 
 
 @contract("coverage.equals_clone", ["C12"],
